@@ -446,11 +446,23 @@ def run(ctx):
     per = 30 if ctx.tier == "quick" else 2000
     cases = []
     n = 0
+    sampled = [False]
+
+    def flush(force=False):
+        # generated, run and judged in slices: bulk arguments are large, a thorough tier would otherwise hold tens of GB
+        if cases and (force or len(cases) >= 1500):
+            if not sampled[0]:
+                ctx.sample({"schema": cases[0]["schema"], "hostile_kinds": cases[0]["_kinds"], "n_ops": len(cases[0]["ops"])})
+                sampled[0] = True
+            runner.run_cases(cases, cfg="san", on_result=lambda r: judge_case(ctx, r), stall_timeout=90)
+            cases.clear()
+
     for schema in ALL_SCHEMAS:
         for k in range(per):
             ops, kinds, _ = gen_history(ctx.rng, schema, 25 + (k % 4) * 10)
             cases.append({"id": "h%d" % n, "schema": schema, "ops": ops, "_kinds": sorted(kinds)})
             n += 1
+            flush()
     from ..framework import V2_SCHEMAS
     pert = 25 if ctx.tier == "quick" else 1500
     for schema in V2_SCHEMAS:
@@ -458,6 +470,7 @@ def run(ctx):
             ops, kinds = gen_table_history(ctx.rng, schema, 30 + (k % 3) * 15)
             cases.append({"id": "tb%d" % n, "schema": schema, "ops": ops, "_kinds": sorted(kinds), "_table": True})
             n += 1
+            flush()
     # recordings of several hours: more than 2^20 / 2^21 waveform entries (made inside the executor), through every way in
     for i, schema in enumerate(ALL_SCHEMAS):
         nbig = [1134000, 2 ** 20 + 1, 1049089, 2 ** 21 + 3, 1500000][i % 5] if ctx.tier == "quick" else ctx.rng.choice([1134000, 2 ** 21 + 3, 3000000, 5000000])
@@ -473,11 +486,10 @@ def run(ctx):
                {"op": "observe_all", "snapshots": False}]
         cases.append({"id": "long%d" % n, "schema": schema, "ops": ops, "_kinds": ["waveform:millions-of-entries"], "no_tz": True})
         n += 1
-    ctx.sample({"schema": cases[0]["schema"], "hostile_kinds": cases[0]["_kinds"], "n_ops": len(cases[0]["ops"])})
+    flush(force=True)
     ctx.assumptions += ["ASan+UBSan(float-cast-overflow, float-divide-by-zero)+_GLIBCXX_ASSERTIONS build; a single allocation above 128 MiB "
                         "fails with std::bad_alloc", "calls on removed handles other than copy/assign/destroy/id()/is_valid() are "
                         "refused by the harness (documented contract)", "termination: VDBE step budget per call plus a 60 s watchdog"]
-    runner.run_cases(cases, cfg="san", on_result=lambda r: judge_case(ctx, r), stall_timeout=90)
     seen = set(ctx.extra.get("cases_by_schema", {}))
     if seen != set(ALL_SCHEMAS):
         ctx.fail_harness("schema versions not covered: %s" % sorted(set(ALL_SCHEMAS) - seen))
